@@ -111,8 +111,6 @@ func ProcessSchedPart(run *report.Run, st *Setup, n int, kinds map[string]bool) 
 				break
 			}
 		}
-		if i == 0 {
-			run.Sample(map[string]any{"process_case": i, "shape": s.Shape(), "num_workers": gcfg.NumWorkers, "history": env.Log})
-		}
+		run.Sample(map[string]any{"process_case": i, "shape": s.Shape(), "num_workers": gcfg.NumWorkers, "history": env.Log})
 	})
 }
